@@ -143,20 +143,39 @@ def chainS (o : Ops β) (a b : Seq β) : Seq β :=
        | none => balanced o (sa.length + sb.length) (sa ++ sb))
     | _, _ => balanced o (sa.length + sb.length) (sa ++ sb)
 
+/-- the base class `take`: `_Empty`, `_Uniform(seq.get(i), 1)` or `_Take(seq, indices)` -/
+def takeGeneric (o : Ops β) (s : Seq β) (idx : List Nat) : Seq β :=
+  match idx with
+  | [] => .empty
+  | [i] => (match s.get o i with
+    | some x => .uniform x 1
+    | none => .empty)
+  | _ => .take s idx
+
+/-- `(mask[1:] > mask[:-1]).any()` for `mask = indices < n`: an index into the first part follows one into the second -/
+def crossesBack (n : Nat) : List Nat → Bool
+  | i :: j :: t => (!(decide (i < n)) && decide (j < n)) || crossesBack n (j :: t)
+  | _ => false
+
 /-- `seq.take(indices)` -/
 def takeS (o : Ops β) : Seq β → List Nat → Seq β
   | .uniform x _, idx => uniformS x idx.length
   | .take p i0, idx => takeS o p (idx.filterMap fun k => i0[k]?)
   | .chain a b, idx =>
     let n := a.len o
-    chainS o (takeS o a (idx.filter (· < n))) (takeS o b ((idx.filter (fun i => !(i < n))).map (· - n)))
-  | s, idx =>
-    match idx with
-    | [] => .empty
-    | [i] => (match s.get o i with
-      | some x => .uniform x 1
-      | none => .empty)
-    | _ => .take s idx
+    if crossesBack n idx then takeGeneric o (.chain a b) idx
+    else chainS o (takeS o a (idx.filter (· < n))) (takeS o b ((idx.filter (fun i => !(i < n))).map (· - n)))
+  | s, idx => takeGeneric o s idx
+
+/-- `_Chain.take` as it was before the repair (`fix: _Chain.take keeps the order of unsorted indices`): hits in the first
+sequence always came first.  Kept as documentation for `containers_take_old_counterexample`. -/
+def takeSOld (o : Ops β) : Seq β → List Nat → Seq β
+  | .uniform x _, idx => uniformS x idx.length
+  | .take p i0, idx => takeSOld o p (idx.filterMap fun k => i0[k]?)
+  | .chain a b, idx =>
+    let n := a.len o
+    chainS o (takeSOld o a (idx.filter (· < n))) (takeSOld o b ((idx.filter (fun i => !(i < n))).map (· - n)))
+  | s, idx => takeGeneric o s idx
 
 def nonzero (mask : List Bool) : List Nat := (mask.zipIdx.filter (·.1)).map (·.2)
 
